@@ -7,6 +7,11 @@ LEAF_KINDS = ['eq', 'ne', 'gt', 'lt', 'ge', 'le', 'in', 'nin', 'allin', 'allnin'
               'subjeq', 'acteq', 'resin', 'raise', 'const']
 
 
+def proto_raise_names():
+    import proto
+    return proto.RAISE_NAMES
+
+
 def _near(rng, what):
     """`what` itself, something equal to it, or a one-point mutation"""
     r = rng.random()
@@ -57,7 +62,7 @@ def gen_leaf(rng, what, inq=None, kind=None):
     if kind in ('truthy', 'falsy', 'any', 'neither', 'pairs', 'subjeq', 'acteq', 'resin'):
         return (kind,)
     if kind == 'raise':
-        return ('raise', pick(rng, ['ValueError', 'KeyError', 'RuntimeError', 'Exception', 'ZeroDivisionError']))
+        return ('raise', pick(rng, proto_raise_names()))
     if kind == 'const':
         return ('const', rng.random() < 0.5)
     if kind in ('streq', 'starts', 'ends', 'contains'):
